@@ -13,8 +13,18 @@
 
 #include "common/verif.h"
 
+extern "C" void __sanitizer_set_death_callback(void (*)(void)) __attribute__((weak));
+
 namespace verif {
 namespace {
+
+Outcome* g_current = nullptr;
+void OnSanitizerDeath() {
+  if (g_current) {
+    fprintf(stdout, "CASE(at sanitizer abort) %s\n", g_current->desc.str().c_str());
+    fflush(stdout);
+  }
+}
 
 std::string jstr(const std::string& s) {
   std::string o = "\"";
@@ -98,6 +108,7 @@ void write_part(const std::string& path, const Config& cfg, const Stats& st,
 
 void run_body(const Body& body, const uint8_t* d, size_t n, Outcome& o) {
   Tape t(d, n);
+  g_current = &o;
   try {
     body(t, o);
   } catch (const std::exception& e) {
@@ -138,6 +149,7 @@ int run_main(int argc, char** argv, const Config& cfg, Body body, Enumerator enu
     else if (a == "--faildir") faildir = next();
     else if (a == "--max-seconds") max_seconds = atof(next().c_str());
   }
+  if (__sanitizer_set_death_callback) __sanitizer_set_death_callback(OnSanitizerDeath);
   auto t0 = std::chrono::steady_clock::now();
   auto elapsed = [&]() { return std::chrono::duration<double>(std::chrono::steady_clock::now() - t0).count(); };
 
@@ -185,6 +197,7 @@ int run_main(int argc, char** argv, const Config& cfg, Body body, Enumerator enu
                        " max_size=" + std::to_string(size) + " max_discard_ratio=1000";
   setenv("RC_PARAMS", params.c_str(), 1);
   bool in_shrink = false;
+  const bool trace = getenv("VERIF_TRACE") != nullptr;
   const int scale = cfg.tape_scale;
   bool ok = rc::check(std::string(cfg.id) + "/" + cfg.sub, [&]() {
     auto tape = *rc::gen::scale(double(scale), rc::gen::container<std::vector<uint8_t>>(rc::gen::arbitrary<uint8_t>()));
@@ -193,7 +206,9 @@ int run_main(int argc, char** argv, const Config& cfg, Body body, Enumerator enu
       if (ftruncate(pfd, 0) == 0) { ssize_t w = pwrite(pfd, tape.data(), tape.size(), 0); (void)w; }
     }
     Outcome o;
+    double tb = elapsed();
     run_body(body, tape.data(), tape.size(), o);
+    if (trace) fprintf(stderr, "TRACE %.3fs %s\n", elapsed() - tb, o.desc.str().substr(0, 300).c_str());
     if (!in_shrink) st.absorb(o);
     if (!o.ok && !o.excluded && (!in_shrink || o.sig == st.fail_sig)) {
       in_shrink = true;  // every later call is a shrink candidate
